@@ -50,6 +50,7 @@ pub struct Counters {
     pub labels_indeterminate: u64,
     pub weighted_sums_compared: u64,
     pub nu_svc_r_cross_checked: u64,
+    pub nu_svc_zero_margin: u64,
     pub models_judged: u64,
     pub last_iters: (u64, u64),
     pub last_nsupport: u64,
@@ -76,6 +77,7 @@ impl Counters {
         self.labels_indeterminate += o.labels_indeterminate;
         self.weighted_sums_compared += o.weighted_sums_compared;
         self.nu_svc_r_cross_checked += o.nu_svc_r_cross_checked;
+        self.nu_svc_zero_margin += o.nu_svc_zero_margin;
         self.models_judged += o.models_judged;
     }
     pub fn as_pairs(&self) -> Vec<(&'static str, u64)> {
@@ -97,6 +99,7 @@ impl Counters {
             ("labels_indeterminate", self.labels_indeterminate),
             ("weighted_sums_compared", self.weighted_sums_compared),
             ("nu_svc_r_cross_checked_against_debug_output", self.nu_svc_r_cross_checked),
+            ("nu_svc_zero_margin_degenerate_not_judged", self.nu_svc_zero_margin),
         ]
     }
 }
@@ -134,6 +137,8 @@ pub struct Env<'a> {
     pub ts: Vec<f64>,
     pub eps_mach: f64,
     pub rel: f64,
+    /// absolute floor below which the subject's float type underflows / is subnormal
+    pub tiny: f64,
     /// K[i][j] over the training samples
     pub k: Vec<Vec<f64>>,
     pub kabs: Vec<Vec<f64>>,
@@ -150,7 +155,8 @@ impl<'a> Env<'a> {
         let kp = ps.iter().map(|a| xs.iter().map(|b| kern(&case.kernel, b, a)).collect()).collect();
         let kpabs = ps.iter().map(|a| xs.iter().map(|b| kern_abs(&case.kernel, b, a)).collect()).collect();
         let rel = if eps_mach > 1e-10 { 1e-4 } else { 1e-9 };
-        Env { case, n, ts, eps_mach, rel, k, kabs, kp, kpabs }
+        let tiny = if eps_mach > 1e-10 { 1e-30 } else { 1e-290 };
+        Env { case, n, ts, eps_mach, rel, tiny, k, kabs, kp, kpabs }
     }
 
     /// domain predicate: nu-SVC needs nu*n/2 <= min(n+, n-), otherwise the dual has no feasible point
@@ -266,6 +272,19 @@ pub fn check_model(env: &Env, pre: &str, shrink: bool, o: &Obs, off: Option<&Obs
             format!("#{{|alpha_i| > 100 eps_machine}} = {}, nsupport() = {}, Display prints {}", want_nsv, o.nsupport, sh.nsv),
         );
     }
+    // ---- nu-SVC: zero-margin degenerate problems are not judged ----
+    if let (Problem::NuSvc { .. }, Some(r)) = (&case.problem, o.debug_r) {
+        let ksum = (0..n).map(|i| env.kabs[i].iter().sum::<f64>()).fold(0.0, f64::max);
+        let thr_r = 2.0 * case.eps + (4 * nv + 4 * sh.iters) as f64 * em * (ksum + 1.0);
+        if r.is_finite() && r.abs() <= thr_r {
+            // r (the margin of the nu-SVC solution) is zero at solver precision: the nu-reduced convex hulls of
+            // the two classes intersect, w = 0, and the published 1/r scaling is undefined
+            cnt.nu_svc_zero_margin += 1;
+            cnt.indeterminate_cases += 1;
+            cnt.models_judged -= 1;
+            return;
+        }
+    }
     // ---- finiteness ----
     if !o.rho.is_finite() || o.alpha.iter().any(|a| !a.is_finite()) {
         let nbad = o.alpha.iter().filter(|a| !a.is_finite()).count();
@@ -318,7 +337,7 @@ pub fn check_model(env: &Env, pre: &str, shrink: bool, o: &Obs, off: Option<&Obs
     let all_ws = o.ws_train.iter().zip(&s_train).zip(&sabs_train).chain(o.ws_probe.iter().zip(&s_probe).zip(&sabs_probe));
     for (idx, ((&got, &want), &mag)) in all_ws.enumerate() {
         cnt.weighted_sums_compared += 1;
-        let tol = env.rel * mag + 1e-300;
+        let tol = env.rel * mag + env.tiny;
         if !((got - want).abs() <= tol) {
             if ws_bad.is_empty() {
                 ws_detail = format!("sample {} ({}): weighted_sum = {}, sum_j alpha_j K(x_j,x) = {} (tolerance {:.3e})", idx, if idx < n { "training" } else { "new" }, got, want, tol);
@@ -356,7 +375,7 @@ pub fn check_model(env: &Env, pre: &str, shrink: bool, o: &Obs, off: Option<&Obs
                 }
             }
             let f = s - o.rho;
-            let tol = env.rel * (mag + o.rho.abs()) + 1e-300;
+            let tol = env.rel * (mag + o.rho.abs()) + env.tiny;
             if f.abs() <= tol {
                 cnt.labels_indeterminate += 1;
                 continue;
@@ -423,7 +442,7 @@ pub fn check_model(env: &Env, pre: &str, shrink: bool, o: &Obs, off: Option<&Obs
             for i in 0..n {
                 let a = y[i] * o.alpha[i];
                 let u = uraw[i] * scale;
-                let btol = 16.0 * em * u + if matches!(case.problem, Problem::NuSvc { .. }) { env.rel * u } else { 0.0 };
+                let btol = 16.0 * em * u + if matches!(case.problem, Problem::NuSvc { .. }) { env.rel.max(4.0 * (nv + sh.iters) as f64 * em) * u } else { 0.0 };
                 if a < -btol {
                     neg.push((i, -a));
                 }
@@ -684,11 +703,13 @@ pub fn check_calibrated(env: &Env, pre: &str, o: &Obs, plain: Option<&Obs>, v: &
         return;
     }
     pts.sort_by(|a, b| a.0.partial_cmp(&b.0).unwrap());
-    let inc = pts.windows(2).all(|w| if w[0].0 == w[1].0 { w[0].1 == w[1].1 } else { w[0].1 <= w[1].1 });
-    let dec = pts.windows(2).all(|w| if w[0].0 == w[1].0 { w[0].1 == w[1].1 } else { w[0].1 >= w[1].1 });
+    // Pr is an f32 computed with f32 exp / division: allow 4 ulp of f32 at 1.0
+    let slack = 4.0 * f32::EPSILON as f64;
+    let inc = pts.windows(2).all(|w| if w[0].0 == w[1].0 { w[0].1 == w[1].1 } else { w[0].1 <= w[1].1 + slack });
+    let dec = pts.windows(2).all(|w| if w[0].0 == w[1].0 { w[0].1 == w[1].1 } else { w[0].1 + slack >= w[1].1 });
     if !inc && !dec {
-        let w = pts.windows(2).find(|w| w[0].1 > w[1].1).map(|w| (w[0], w[1]));
-        let w2 = pts.windows(2).find(|w| w[0].1 < w[1].1).map(|w| (w[0], w[1]));
+        let w = pts.windows(2).find(|w| w[0].1 > w[1].1 + slack).map(|w| (w[0], w[1]));
+        let w2 = pts.windows(2).find(|w| w[0].1 + slack < w[1].1).map(|w| (w[0], w[1]));
         push("not_monotone_in_decision_value", format!("(decision, Pr) pairs rise and fall: {:?} and {:?}", w, w2));
     }
 }
